@@ -81,13 +81,13 @@ structure SAcc where
   label : String
   reads : List SRng
   writes : List SRng
-deriving Repr
+deriving DecidableEq, Repr
 
 inductive SEv
   | one (a : SAcc)
   /-- a loop whose iterations each take one of the alternative bodies, any number of times -/
   | rep (alts : List (List SAcc))
-deriving Repr
+deriving DecidableEq, Repr
 
 abbrev SPath := List SEv
 
@@ -319,7 +319,7 @@ structure Path where
   /-- the draw was abandoned with an error on this path -/
   aborted : Bool
   bad : Bool
-deriving Repr
+deriving DecidableEq, Repr
 
 /-- one segment of a top-level function: straight-line piece between the points where the control
 skeleton (`Trace`) takes over -/
@@ -493,31 +493,26 @@ inductive DrawTrace (P : Pipeline) (g : Option Carve.Glyph) : List CAcc → Prop
 
 /-! ## contracts of the segments (what the skeleton needs from each) -/
 
-def sym (i : Nat) : Lin := ⟨List.replicate i 0 ++ [1], 0⟩
-def Lin.plus (a : Lin) (n : Nat) : Lin := ⟨a.coefs, a.const + n⟩
-def zero : Lin := Lin.ofNat 0
+def lin (coefs : List Nat) : Lin := ⟨coefs, 0⟩
 
 /-- `load_simple` needs nothing and leaves points / flags `[points_start, +point_count)` and contour
 ends `[contours_start, +contour_count)` written -/
 def simplePost (P : Pipeline) : List SRng :=
-  [⟨P.pts, sym 0, (sym 0).add (sym 1)⟩, ⟨P.flags, sym 0, (sym 0).add (sym 1)⟩,
-   ⟨P.contours, sym 2, (sym 2).add (sym 3)⟩]
+  [⟨P.pts, lin [1], lin [1, 1]⟩, ⟨P.flags, lin [1], lin [1, 1]⟩, ⟨P.contours, lin [0, 0, 1], lin [0, 0, 1, 1]⟩]
 
 /-- before the loop: with `have_deltas`, the deltas of the components `[delta_base, +count)` are written -/
-def compPrePost (P : Pipeline) : List SRng := [⟨P.compDeltas, sym 0, (sym 0).add (sym 1)⟩]
+def compPrePost (P : Pipeline) : List SRng := [⟨P.compDeltas, lin [1], lin [1, 1]⟩]
 
 /-- per component: everything loaded so far is written (and the component deltas if `have_deltas`) -/
 def compIterPre (P : Pipeline) (hd : Bool) : List SRng :=
-  let upto := ((sym 0).add (sym 1)).add (sym 2)
-  [⟨P.pts, zero, upto⟩, ⟨P.flags, zero, upto⟩] ++
-  (if hd then [⟨P.compDeltas, sym 3, (sym 3).add (sym 4)⟩] else [])
+  [⟨P.pts, lin [], lin [1, 1, 1]⟩, ⟨P.flags, lin [], lin [1, 1, 1]⟩] ++
+  (if hd then [⟨P.compDeltas, lin [0, 0, 0, 1], lin [0, 0, 0, 1, 1]⟩] else [])
 
 def compPostPre (P : Pipeline) : List SRng :=
-  [⟨P.pts, zero, (sym 0).add (sym 1)⟩, ⟨P.flags, zero, (sym 0).add (sym 1)⟩,
-   ⟨P.contours, zero, (sym 2).add (sym 3)⟩]
+  [⟨P.pts, lin [], lin [1, 1]⟩, ⟨P.flags, lin [], lin [1, 1]⟩, ⟨P.contours, lin [], lin [0, 0, 1, 1]⟩]
 
 def finalPre (P : Pipeline) : List SRng :=
-  [⟨P.pts, zero, sym 0⟩, ⟨P.flags, zero, sym 0⟩, ⟨P.contours, zero, sym 1⟩]
+  [⟨P.pts, lin [], lin [1]⟩, ⟨P.flags, lin [], lin [1]⟩, ⟨P.contours, lin [], lin [0, 1]⟩]
 
 /-- all per-function obligations of one scaler -/
 def pipelineOK (P : Pipeline) : Bool :=
